@@ -181,4 +181,30 @@ theorem guarded_of_span {spans : Spans} {col : Nat} {s : Nat × Nat} (hs : s ∈
   rw [List.any_eq_true]
   exact ⟨s, hs, by simp only [Bool.and_eq_true, decide_eq_true_eq]; omega⟩
 
+/-! ### the trailing comment of an import line -/
+
+theorem rstrip_length_le (l : Line) : (rstrip l).length ≤ l.length := by
+  unfold rstrip
+  rw [List.length_reverse]
+  have := (List.dropWhile_sublist isSpace (l := l.reverse)).length_le
+  rwa [List.length_reverse] at this
+
+theorem importPart_length_le {spans : Spans} {line : Line} {c : Nat} (h : commentStart spans line = some c) :
+    (importPart spans line).length ≤ c := by
+  unfold importPart
+  rw [h]
+  exact Nat.le_trans (rstrip_length_le _) (by rw [List.length_take]; exact Nat.min_le_left _ _)
+
+theorem drop_suffix_of_le (l : Line) {n c : Nat} (h : n ≤ c) : l.drop c <:+ l.drop n := by
+  have : l.drop c = (l.drop n).drop (c - n) := by rw [List.drop_drop]; congr 1; omega
+  rw [this]
+  exact List.drop_suffix _ _
+
+theorem comment_suffix_trailing {spans : Spans} {line : Line} {c : Nat} (h : commentStart spans line = some c) :
+    line.drop c <:+ trailingComment spans line := by
+  have hlen := importPart_length_le h
+  unfold trailingComment
+  rw [h]
+  exact drop_suffix_of_le line hlen
+
 end LianVerif.PyImportPre
